@@ -54,6 +54,7 @@ class EngineScenario:
         self.n0 = len(self.tr.sent)
         self.ev = []           # call / ret events (with _abs time)
         self._watch_loss(self.spa._protocol)
+        self._watch_background(self.spa)
         self.ncall = 0
         self.tasks = []
         self.fault = fault
@@ -68,6 +69,23 @@ class EngineScenario:
             orig(exc)
             self.ev.append({"k": "down", "t": ms(loop.time()), "_n": next(_vl.SEQ)})
         proto.connection_lost = lost
+
+    def _watch_background(self, spa):
+        """the refresh loop is a caller whose call boundaries the harness can see: it enters the structure's get()
+        once per cycle.  Logged with the gate as the harness evaluates it at that instant (connected, and a ping
+        answered within the freshness window): a background query starts only behind an open gate"""
+        orig = spa.struct.get
+        loop = self.s.loop
+        sess = self
+
+        async def get(*a, **kw):
+            t = asyncio.current_task()
+            name = t.get_name() if t is not None else "-"
+            if name == "SPA:Refresh loop":
+                sess.ev.append({"k": "bgcall", "c": name, "gate": bool(spa.is_connected and sess.answering_pings()),
+                                "t": ms(loop.time()), "_n": next(_vl.SEQ)})
+            return await orig(*a, **kw)
+        spa.struct.get = get
 
     def stalls(self, rng, p=0.04, choices=(0.25, 0.6, 1.3)):
         """from now on the event loop occasionally wakes up late (a callback that blocked it); every
